@@ -23,7 +23,7 @@ def Fen.validate_rank.for_1 (rank : List Char) (chars : List Char) (range_end_1 
   | 0, _ => none
   | fuel + 1, i =>
     if i < range_end_1 then do
-      if (← if isAsciiDigit (← vecIdx chars i) then (do pure (isAsciiDigit (← vecIdx chars (← chk .usize (i + 1))))) else pure false) then do
+      if (← (if isAsciiDigit (← vecIdx chars i) then (do pure (isAsciiDigit (← vecIdx chars (← chk .usize (i + 1))))) else pure false)) then do
         pure (Ctl.ret (Except.error (FenParseError.ConcurrentNumbers rank)))
       else do
         let i := i + 1
